@@ -324,3 +324,77 @@ Example C01_ex_refs :
   stored st (NNode 7 no_attrs [NLeaf 3 no_attrs []; NNode 9 no_attrs [NLeaf 4 no_attrs []]])
   /\ gflatten 3 st no_attrs 7%N = Some [(no_attrs, []); (no_attrs, [])].
 Proof. cbn. repeat split. Qed.
+
+(* ---------- what the lookups answer is all that matters ---------- *)
+
+(* two files whose object lookups answer alike (C04: a lookup answers with the newest
+   revision, whatever the history of lookups and the state of the cache) read alike *)
+Theorem reading_depends_on_what_the_lookups_answer : forall st1 st2,
+  (forall n, st1 n = st2 n) -> forall fuel inh n, gflatten fuel st1 inh n = gflatten fuel st2 inh n.
+Proof.
+  intros st1 st2 H. induction fuel as [|f IH]; intros inh n; [reflexivity|].
+  cbn [gflatten]. rewrite H. destruct (st2 n) as [[a kids|a cs]|]; try reflexivity.
+  f_equal. apply map_ext. intros k. apply IH.
+Qed.
+
+(* ---------- a page shows what its content says ---------- *)
+
+(* the text part of a logical page: strings shown with a font, by one of the four operators *)
+Inductive item := Item (font : bytes) (kind : nat) (strs : list bytes).
+
+Definition kerned (ss : list bytes) : list obj := flat_map (fun s => [OStr s; OInt (-20)]) ss.
+
+Definition item_ops (it : item) : list (bytes * list obj) :=
+  match it with
+  | Item f k ss =>
+      (bytes_of_string "Tf", [OName f; OInt 12]) ::
+      match k, ss with
+      | O, s :: _ => [(bytes_of_string "Tj", [OStr s])]
+      | 1%nat, _ => [(bytes_of_string "TJ", [OArr (kerned ss)])]
+      | 2%nat, s :: _ => [(bytes_of_string "TL", [OInt 14]); (bytes_of_string "'", [OStr s])]
+      | 3%nat, s :: _ => [(bytes_of_string """", [OInt 0; OInt 0; OStr s])]
+      | _, _ => []
+      end
+  end.
+
+Definition item_font (it : item) : bytes := match it with Item f _ _ => f end.
+
+Definition item_shows (it : item) : list bytes :=
+  match it with
+  | Item _ 1%nat ss => ss
+  | Item _ O (s :: _) | Item _ 2%nat (s :: _) | Item _ 3%nat (s :: _) => [s]
+  | _ => []
+  end.
+
+Lemma strings_of_kerned : forall ss, strings_of (kerned ss) = ss.
+Proof. induction ss as [|s r IH]; [reflexivity|]. cbn [kerned flat_map app strings_of]. fold (kerned r). rewrite IH. reflexivity. Qed.
+
+Lemma run_item : forall it f,
+  run_ops f (item_ops it) = (item_font it, map (fun s => (item_font it, s)) (item_shows it)).
+Proof.
+  intros [fn k ss] f. destruct k as [|[|[|[|k]]]]; destruct ss as [|s r]; try reflexivity.
+  cbn [item_ops item_shows item_font].
+  assert (E : run_ops f [(bytes_of_string "Tf", [OName fn; OInt 12]); (bytes_of_string "TJ", [OArr (kerned (s :: r))])]
+                = (fn, map (fun x => (fn, x)) (strings_of (kerned (s :: r))) ++ [])) by reflexivity.
+  rewrite E, app_nil_r, strings_of_kerned. reflexivity.
+Qed.
+
+(* the strings of the items, in content order, each decoded with the font its item selects;
+   operators that show nothing (graphics state, positioning) may stand anywhere in between *)
+Theorem a_page_shows_what_its_content_says : forall fonts a items,
+  page_strings fonts a (flat_map item_ops items)
+  = flat_map (fun it => map (shown fonts (a_res a) (item_font it)) (item_shows it)) items.
+Proof.
+  intros fonts a items. unfold page_strings.
+  assert (G : forall f, snd (run_ops f (flat_map item_ops items))
+                        = flat_map (fun it => map (fun s => (item_font it, s)) (item_shows it)) items).
+  { induction items as [|it r IH]; intros f; [reflexivity|].
+    cbn [flat_map]. rewrite run_ops_app, run_item. cbn [fst snd]. rewrite IH. reflexivity. }
+  rewrite G. clear G. induction items as [|it r IH]; [reflexivity|].
+  cbn [flat_map]. rewrite map_app, IH, map_map. reflexivity.
+Qed.
+
+Theorem operators_that_are_not_text_showing_show_nothing : forall f o args,
+  op_is o "Tf" = false -> op_is o "Tj" = false -> op_is o "'" = false -> op_is o """" = false -> op_is o "TJ" = false ->
+  step_op f (o, args) = (f, []).
+Proof. intros f o args H1 H2 H3 H4 H5. unfold step_op. rewrite H1, H2, H3, H4, H5. reflexivity. Qed.
